@@ -206,7 +206,11 @@ func c02MandElems(m *bind.Msg) []c02Elem {
 	var out []c02Elem
 	for i := range m.Slots {
 		if !m.Slots[i].Optional {
-			out = append(out, c02Elem{Slot: i, Len: m.Slots[i].Min, Walk: -1, Pat: 600 + i})
+			e := c02Elem{Slot: i, Len: m.Slots[i].Min, Walk: -1, Pat: 600 + i}
+			if i == 1 && m.Family == "gmm" {
+				e.Pat = 0 // security header type octet of a plain 5GMM message: 00 (its other values have their own sweep)
+			}
+			out = append(out, e)
 		}
 	}
 	return out
